@@ -15,3 +15,54 @@ package jpegmeta
 //@   ensures [C07,C19] stream-non-nil: imgStream != nil
 //@   ensures [C07,C19] replays-input: stream_len(imgStream) == old(r.avail) && (forall j int :: 0 <= j && j < old(r.avail) ==> stream_at(imgStream, j) == u8(r, old(r.pos) + j))
 //@   ensures [C07] source-error-resurfaces: stream_err(imgStream) == stream_err(r)
+
+// ---- C05/C06/C09/C18: the segment parser ----
+// A JPEG stream is a chain of segments: FF, type, and for length-bearing types a 2-byte
+// big-endian length (counting itself) followed by length-2 bytes. sg(k) is the offset of
+// the k-th segment (ghost), f the index of the first start-of-frame segment (SOF0 = C0,
+// SOF2 = C2) and n the index of the first SOS (DA) / EOI (D9) segment after it.
+
+// readSegment: one FF/type[/length/data] segment from the current position.
+//@ func readSegment
+//@   modular
+//@   alloc_bound r.len + 65536
+//@   ensures [C05,C06,C08,C09,C18] length-bearing: old(r.avail) >= 4 && u8(r, old(r.pos)) == 0xFF && (u8(r, old(r.pos)+1) == 0xC0 || u8(r, old(r.pos)+1) == 0xC2 || u8(r, old(r.pos)+1) == 0xC4 || u8(r, old(r.pos)+1) == 0xDA || u8(r, old(r.pos)+1) == 0xDB || u8(r, old(r.pos)+1) == 0xDD || u8(r, old(r.pos)+1) == 0xFE || (u8(r, old(r.pos)+1) >= 0xE0 && u8(r, old(r.pos)+1) <= 0xEF)) && be16(r, old(r.pos)+2) >= 2 && old(r.avail) >= 2 + int(be16(r, old(r.pos)+2)) ==> result1 == nil && int(result0.Marker.Type) == int(u8(r, old(r.pos)+1)) && result0.Marker.DataLength == int(be16(r, old(r.pos)+2)) - 2 && len(result0.Data) == int(be16(r, old(r.pos)+2)) - 2 && r.pos == old(r.pos) + 2 + int(be16(r, old(r.pos)+2)) && (forall j int :: 0 <= j && j < len(result0.Data) ==> result0.Data[j] == u8(r, old(r.pos) + 4 + j))
+//@   ensures [C05,C06,C08,C09,C18] standalone: old(r.avail) >= 2 && u8(r, old(r.pos)) == 0xFF && (u8(r, old(r.pos)+1) >= 0xD0 && u8(r, old(r.pos)+1) <= 0xD9) ==> result1 == nil && int(result0.Marker.Type) == int(u8(r, old(r.pos)+1)) && result0.Marker.DataLength == 0 && len(result0.Data) == 0 && r.pos == old(r.pos) + 2
+//@   ensures [C05,C09] not-a-marker: old(r.avail) >= 1 && u8(r, old(r.pos)) != 0xFF ==> result1 != nil
+//@   ensures [C09] short: old(r.avail) < 2 ==> result1 != nil
+//@   ensures [C09,C18] progress: result1 == nil ==> r.pos >= old(r.pos) + 2
+
+//@ func segmentReader.ReadSegment
+//@   modular
+//@   alloc_bound sr.reader.len + 65536
+//@   ensures [C05,C06,C09,C18] length-bearing: !old(sr.inEntropyCodedData) && old(sr.reader.avail) >= 4 && u8(sr.reader, old(sr.reader.pos)) == 0xFF && (u8(sr.reader, old(sr.reader.pos)+1) == 0xC0 || u8(sr.reader, old(sr.reader.pos)+1) == 0xC2 || u8(sr.reader, old(sr.reader.pos)+1) == 0xC4 || u8(sr.reader, old(sr.reader.pos)+1) == 0xDA || u8(sr.reader, old(sr.reader.pos)+1) == 0xDB || u8(sr.reader, old(sr.reader.pos)+1) == 0xDD || u8(sr.reader, old(sr.reader.pos)+1) == 0xFE || (u8(sr.reader, old(sr.reader.pos)+1) >= 0xE0 && u8(sr.reader, old(sr.reader.pos)+1) <= 0xEF)) && be16(sr.reader, old(sr.reader.pos)+2) >= 2 && old(sr.reader.avail) >= 2 + int(be16(sr.reader, old(sr.reader.pos)+2)) ==> result1 == nil && int(result0.Marker.Type) == int(u8(sr.reader, old(sr.reader.pos)+1)) && len(result0.Data) == int(be16(sr.reader, old(sr.reader.pos)+2)) - 2 && sr.reader.pos == old(sr.reader.pos) + 2 + int(be16(sr.reader, old(sr.reader.pos)+2)) && (forall j int :: 0 <= j && j < len(result0.Data) ==> result0.Data[j] == u8(sr.reader, old(sr.reader.pos) + 4 + j)) && (sr.inEntropyCodedData <==> u8(sr.reader, old(sr.reader.pos)+1) == 0xDA)
+//@   ensures [C05,C06,C09,C18] standalone: !old(sr.inEntropyCodedData) && old(sr.reader.avail) >= 2 && u8(sr.reader, old(sr.reader.pos)) == 0xFF && (u8(sr.reader, old(sr.reader.pos)+1) >= 0xD0 && u8(sr.reader, old(sr.reader.pos)+1) <= 0xD9) ==> result1 == nil && int(result0.Marker.Type) == int(u8(sr.reader, old(sr.reader.pos)+1)) && len(result0.Data) == 0 && sr.reader.pos == old(sr.reader.pos) + 2 && !sr.inEntropyCodedData
+//@   ensures [C09,C18] progress: result1 == nil ==> sr.reader.pos >= old(sr.reader.pos) + 2
+//@   loop 1 invariant [C09,C05] scanning: sr.reader.pos >= entry(sr.reader.pos)
+//@   loop 1 decreases sr.reader.len - sr.reader.pos
+
+//@ func extractMetadata
+//@   alloc_bound r.len + 65536
+//@   ghostfun sg int int
+//@   ghost f int
+//@   ghost n int
+//@   scenario plain
+//@   requires [C05] case=plain soi: r.len >= 2 && u8(r, 0) == 0xFF && u8(r, 1) == 0xD8
+//@   requires [C05] case=plain chain-start: sg(0) == 0 && sg(1) == 2 && 1 <= f && f < n && n <= 0x10000000000
+//@   requires [C05] case=plain chain-step: forall k int {sg(k+1)} :: 1 <= k && k < n ==> sg(k+1) == sg(k) + 2 + int(be16(r, sg(k)+2))
+//@   requires [C05] case=plain chain-in-stream: forall k int {sg(k)} :: 1 <= k && k <= n ==> 2 <= sg(k) && sg(k) + 4 <= r.len && u8(r, sg(k)) == 0xFF && be16(r, sg(k)+2) >= 2
+//@   requires [C05] case=plain segments-before-pixels: forall k int {sg(k)} :: 1 <= k && k < n && k != f ==> (u8(r, sg(k)+1) == 0xC4 || u8(r, sg(k)+1) == 0xDB || u8(r, sg(k)+1) == 0xDD || u8(r, sg(k)+1) == 0xFE || u8(r, sg(k)+1) == 0xE0 || u8(r, sg(k)+1) == 0xE1 || (u8(r, sg(k)+1) >= 0xE3 && u8(r, sg(k)+1) <= 0xEF))
+//@   requires [C05] case=plain frame: (u8(r, sg(f)+1) == 0xC0 || u8(r, sg(f)+1) == 0xC2) && be16(r, sg(f)+2) >= 8
+//@   requires [C05] case=plain terminator: u8(r, sg(n)+1) == 0xDA && sg(n) + 2 + int(be16(r, sg(n)+2)) <= r.len
+//@   loop 1 invariant [C05,C06,C18] case=plain chain: 0 <= iter && iter + 1 <= n && r.pos == sg(iter + 1) && !segReader.inEntropyCodedData
+//@   loop 1 invariant [C05,C06,C18] case=plain chain-next: iter + 1 < n ==> sg(iter + 2) == sg(iter + 1) + 2 + int(be16(r, sg(iter + 1)+2)) && sg(iter + 2) + 4 <= r.len
+//@   loop 1 invariant [C05] case=plain before-frame: iter + 1 <= f ==> !metadataExtracted
+//@   loop 1 invariant [C05] case=plain after-frame: iter + 1 > f ==> metadataExtracted && md.BitsPerComponent == uint32(u8(r, sg(f)+4)) && md.PixelHeight == uint32(be16(r, sg(f)+5)) && md.PixelWidth == uint32(be16(r, sg(f)+7))
+//@   loop 1 invariant [C05,C06] case=plain untouched: md != nil && md.Format == "JPEG" && md.iccProfileData == nil && md.iccProfileErr == nil && iccProfileChunks == nil && iccProfileChunksExtracted == 0
+//@   loop 1 decreases r.len - r.pos
+//@   loop 3 invariant [C06,C09] concatenating: 0 <= rangeindex + 1 && rangeindex < len(iccProfileChunks) && (rangeindex == -1 ==> neverwritten(iccProfileData))
+//@   loop 3 decreases len(iccProfileChunks) - rangeindex
+//@   ensures [C05,C08] case=plain jpeg-dimensions: err == nil && md != nil && md.BitsPerComponent == uint32(u8(r, sg(f)+4)) && md.PixelHeight == uint32(be16(r, sg(f)+5)) && md.PixelWidth == uint32(be16(r, sg(f)+7)) && md.Format == "JPEG"
+//@   ensures [C06] case=plain no-profile: md != nil && md.iccProfileData == nil && md.iccProfileErr == nil
+//@   ensures [C18] case=plain stops-at-scan: r.pos == sg(n) + 2 + int(be16(r, sg(n)+2))
+//@   ensures [C07,C09] returns: true
